@@ -1,6 +1,6 @@
 import os
 from ..driver import Prop, Suite
-from .. import lifegen, core, teardown_gen
+from .. import lifegen, core, teardown_gen, poolgen
 
 class C05(Prop):
     pid = "C05"; prop_file = "C05.v"
@@ -9,7 +9,8 @@ class C05(Prop):
             "thread}, 1-2 listeners on the Multi kinds, then every handle is released and (80%) the channel is torn down with whatever is still buffered; after EVERY operation the "
             "destructor count of every accepted payload is compared with the model's and judged by the oracle (never twice, never while queued or held, at once when the last owner lets go). "
             "(2) teardown under valgrind memcheck: every kind dropped with 1-3 events buffered (0-1 consumed): any invalid read / write / free is a violation. "
-            "(3) the field order of every channel / queue struct is re-read from /repo's sources on every run (translator lib/vf/teardown_gen.py -> coq/gen/TeardownGen.v) and the theorem "
+            "(2b) pool allocator with a payload whose destructor is a scheduling point, lock-step (dealloc = destructor, then the id back to the free list), 2-3 threads on an almost exhausted pool: "
+            "a slot must not be handed out before the destructor of its previous payload ran. (3) the field order of every channel / queue struct is re-read from /repo's sources on every run (translator lib/vf/teardown_gen.py -> coq/gen/TeardownGen.v) and the theorem "
             "'every struct tears down safely for every number of buffered events' is re-proved against it. non-trivial = a teardown after clones / cross-thread drops, or >= 2 receives")
     trusted_base = ["translator lib/vf/teardown_gen.py (regexes over struct definitions: an owned `OgreAllocatorType` field, an `Arc<OgreAllocatorType>` field, a queue whose element type is OgreArc<..> / OgreUnique<..>) "
                     "and the two facts the teardown model takes from Rust / the crate: fields are dropped in declaration order after Drop::drop; dropping an OgreArc / OgreUnique dereferences its allocator - "
@@ -43,13 +44,23 @@ class C05(Prop):
             td.append(lifegen.mk_teardown(chan, rng.randint(1, 3), 0))
             if tier != "quick" or rng.random() < 0.5: td.append(lifegen.mk_teardown(chan, rng.randint(2, 3), 1))
         out.append(Suite("teardown_valgrind", "", td, compare=False, runner=core.run_impl_valgrind))
+        # pooled storage: the payload's destructor is a scheduling point, allocations race with releases on an almost exhausted pool
+        m = 150 if tier == "quick" else 3000
+        for fl in ("atomic", "fullsync"):
+            out.append(Suite("pool_destructor_" + fl, poolgen.HEADER, [poolgen.gen_drop_case(rng, fl) for _ in range(m)]))
         return out
-    def oracle(self, case, recs): return lifegen.oracle(case, recs)
-    def nontrivial(self, case, recs): return lifegen.nontrivial(case, recs)
+    def oracle(self, case, recs):
+        if case.meta.get("profile") == "pooldrop": return poolgen.oracle_drop(case, recs)
+        return lifegen.oracle(case, recs)
+    def nontrivial(self, case, recs):
+        if case.meta.get("profile") == "pooldrop": return any(r[0] == "ret" and r[2] == 2 for r in recs)      # the pool ran dry at some point
+        return lifegen.nontrivial(case, recs)
     def parse_replay(self, text):
         lines = [l for l in text.splitlines() if l.strip() and not l.startswith("#")]
         if all(l.startswith("teardown") for l in lines):
             return Suite("replay", "", [lifegen.parse_teardown_line(l) for l in lines], compare=False, runner=core.run_impl_valgrind)
+        if all(l.startswith("pool") for l in lines):
+            return Suite("replay", poolgen.HEADER, [poolgen.parse_drop_case_line(l) for l in lines])
         return Suite("replay", lifegen.HEADER, [lifegen.parse_case_line(l) for l in lines if l.startswith("life")])
 
 def _ordered(kinds):
